@@ -1,5 +1,5 @@
 """Property -> harnesses registry."""
-import h_doc, h_c13, h_lib, h_squash, h_pos
+import h_doc, h_c13, h_lib, h_squash, h_pos, h_paths
 
 def doc(prog, tier):
     return h_doc.DocHarness(prog, tier)
@@ -53,7 +53,12 @@ def pos_blocks(prog, tier):
 POS_SPEC = {'make': pos, 'time_limit': {'quick': 300, 'thorough': 1200}}
 POSB_SPEC = {'make': pos_blocks, 'time_limit': {'quick': 300, 'thorough': 1200}}
 
+PATHS_SPEC = {'make': lambda prog, tier: h_paths.PathsHarness(prog, tier), 'time_limit': {'quick': 420, 'thorough': 2400}}
+
 PROPS = {
+    'C18': {'specs': [PATHS_SPEC], 'notes': COMMON + [
+        'claimed for the path enumeration and the rank ordering of Graph::search_paths; fuzzy scores (SkimMatcherV2), the 100-entry cut-off at real sizes and symbol Urls are outside',
+        'oracle: independent forward enumeration over the input documents (root notes = notes nobody includes; steps heading -> sub-heading, heading -> top-level heading of a note included by a direct block reference; no note twice on a path)']},
     'C17': {'specs': SQUASH_SPECS, 'notes': COMMON + [
         'depth is a symbolic u8: 0..3 (quick) / 0..6 (thorough) on arbitrary reference graphs, all 256 values on chains and self-loops',
         'oracle: independent recursive expansion over the collected trees of the notes (sibling order not constrained: the statement does not fix it)',
